@@ -5,7 +5,6 @@ import (
 	"errors"
 	"fmt"
 	"io"
-	"time"
 	"log/slog"
 	"net/http"
 	"net/http/httptest"
@@ -13,6 +12,7 @@ import (
 	"sync"
 	"sync/atomic"
 	"testing"
+	"time"
 
 	"verif/evid"
 
@@ -312,8 +312,14 @@ func stdAdapter(chi bool) adapter {
 				ho = append(ho, godichi.WithPanicRecovery(cfg.Recovery))
 				if cfg.CustomHandle {
 					ho = append(ho, godichi.WithPanicHandler(func(rw http.ResponseWriter, r *http.Request, v any) { w.count(reqID(r), "panicH"); rw.WriteHeader(598) }),
-						godichi.WithScopeErrorHandler(func(rw http.ResponseWriter, r *http.Request, err error) { w.count(reqID(r), "scopeErrH"); rw.WriteHeader(597) }),
-						godichi.WithResolutionErrorHandler(func(rw http.ResponseWriter, r *http.Request, err error) { w.count(reqID(r), "resErrH"); rw.WriteHeader(596) }))
+						godichi.WithScopeErrorHandler(func(rw http.ResponseWriter, r *http.Request, err error) {
+							w.count(reqID(r), "scopeErrH")
+							rw.WriteHeader(597)
+						}),
+						godichi.WithResolutionErrorHandler(func(rw http.ResponseWriter, r *http.Request, err error) {
+							w.count(reqID(r), "resErrH")
+							rw.WriteHeader(596)
+						}))
 				}
 				if cfg.CtlRegistered {
 					final = godichi.Handle(func(c *Ctl, rw http.ResponseWriter, r *http.Request) {
@@ -342,8 +348,14 @@ func stdAdapter(chi bool) adapter {
 				ho = append(ho, godihttp.WithPanicRecovery(cfg.Recovery))
 				if cfg.CustomHandle {
 					ho = append(ho, godihttp.WithPanicHandler(func(rw http.ResponseWriter, r *http.Request, v any) { w.count(reqID(r), "panicH"); rw.WriteHeader(598) }),
-						godihttp.WithScopeErrorHandler(func(rw http.ResponseWriter, r *http.Request, err error) { w.count(reqID(r), "scopeErrH"); rw.WriteHeader(597) }),
-						godihttp.WithResolutionErrorHandler(func(rw http.ResponseWriter, r *http.Request, err error) { w.count(reqID(r), "resErrH"); rw.WriteHeader(596) }))
+						godihttp.WithScopeErrorHandler(func(rw http.ResponseWriter, r *http.Request, err error) {
+							w.count(reqID(r), "scopeErrH")
+							rw.WriteHeader(597)
+						}),
+						godihttp.WithResolutionErrorHandler(func(rw http.ResponseWriter, r *http.Request, err error) {
+							w.count(reqID(r), "resErrH")
+							rw.WriteHeader(596)
+						}))
 				}
 				if cfg.CtlRegistered {
 					final = godihttp.Handle(func(c *Ctl, rw http.ResponseWriter, r *http.Request) {
@@ -447,7 +459,10 @@ func echoAdapter(w *webWorld, p godi.Provider, cfg appCfg) func(string) (int, an
 		ho := []godiecho.HandlerOption{godiecho.WithPanicRecovery(cfg.Recovery)}
 		if cfg.CustomHandle {
 			ho = append(ho, godiecho.WithPanicHandler(func(c echo.Context, v any) error { w.count(reqID(c.Request()), "panicH"); return c.NoContent(598) }),
-				godiecho.WithScopeErrorHandler(func(c echo.Context, err error) error { w.count(reqID(c.Request()), "scopeErrH"); return c.NoContent(597) }),
+				godiecho.WithScopeErrorHandler(func(c echo.Context, err error) error {
+					w.count(reqID(c.Request()), "scopeErrH")
+					return c.NoContent(597)
+				}),
 				godiecho.WithResolutionErrorHandler(func(c echo.Context, err error) error { w.count(reqID(c.Request()), "resErrH"); return c.NoContent(596) }))
 		}
 		if cfg.CtlRegistered {
